@@ -123,11 +123,11 @@ impl<H: HashChain> HssPrivateKey<H> {
             // account. Thus, the top tree total count needs to be multiplied with free leafs of
             // the current level.
             for subtree_total_lmots_keys in &trees_total_lmots_keys {
-                free_lmots_keys *= subtree_total_lmots_keys;
+                free_lmots_keys = free_lmots_keys.saturating_mul(*subtree_total_lmots_keys);
             }
             trees_total_lmots_keys.push(total_lmots_keys);
 
-            lifetime += free_lmots_keys;
+            lifetime = lifetime.saturating_add(free_lmots_keys);
         }
         lifetime
     }
